@@ -22,7 +22,13 @@ use datafusion_common::{Result, internal_datafusion_err};
 use std::any::Any;
 use std::fmt::Display;
 use std::hash::{Hash, Hasher};
+#[cfg(not(datafusion_verif))]
 use std::{cmp::Ordering, sync::Arc, sync::atomic};
+
+#[cfg(datafusion_verif)]
+use crate::verif_shims::atomic;
+#[cfg(datafusion_verif)]
+use std::{cmp::Ordering, sync::Arc};
 
 mod peak_recording;
 mod pool;
